@@ -18,6 +18,9 @@ LEAVES = {
     "patharc": ("", '<path d="M5e1 1e1 a10.5 5.25 30 1 0 20 .5e1 z m-20,30 q5-9 10,0t10 0" fill="maroon"/>', False),
     "stroked": ("", '<rect x="55" y="55" width="30" height="25" fill="none" stroke="green" stroke-width="3"/>', False),
     "fillstroke": ("", '<circle cx="30" cy="30" r="12" fill="yellow" stroke="navy" stroke-width="2.5" stroke-dasharray="4 2 1"/>', False),
+    "stroke0w": ("", '<rect x="12" y="60" width="25" height="18" fill="red" stroke="blue" stroke-width="0" stroke-linejoin="round"/>', False),
+    "stroke0op": ("", '<circle cx="75" cy="40" r="11" fill="orange" stroke="blue" stroke-width="3" stroke-opacity="0" stroke-dasharray="2 1"/>', False),
+    "strokeonly0": ("", '<path d="M5,95 L40,90" stroke="black" stroke-width="0"/>', False),
     "evenodd": ("", '<path fill-rule="evenodd" d="M10 10h40v40h-40z M20 20h20v20h-20z" fill="gray"/>', False),
     "styled": ("", '<rect x="3" y="3" width="20" height="20" style="fill:lime;opacity:0.8"/>', False),
     "invisible": ("", '<rect x="70" y="5" width="0" height="10" fill="red"/>', False),
@@ -165,6 +168,6 @@ def has_unsupported(kinds_seq):
 
 FORBIDDEN_IN_OUTPUT = {
     "rect", "rrect", "circle", "ellipse", "line", "polygon", "polyline", "pathrel", "patharc", "stroked", "fillstroke",
-    "evenodd", "styled", "xformed", "use", "usetwice", "clipped", "nestedsvg", "symbolanon", "comment", "pi",
+    "evenodd", "styled", "xformed", "stroke0w", "stroke0op", "strokeonly0", "use", "usetwice", "clipped", "nestedsvg", "symbolanon", "comment", "pi",
     "foreignel", "foreignattr", "titledesc", "hrefgrad", "radgrad", "invisible", "transparent", "hidden",
 }
